@@ -215,13 +215,14 @@ def generate(rng, tier):
     ops.append({"t": round(tc + 0.02, 6), "op": "register", "h": "H", "svc": canary})
     faults = {"max_delay_us": rng.choice([0, 1000, 50000]), "dup_p": rng.choice([0.0, 0.1]),
               "corrupt_p": rng.choice([0.0, 0.05, 0.2])}
-    return {"ops": ops, "faults": faults, "end": round(tc + 4.0, 6), "t_canary": round(tc, 6),
+    return {"timer_slop_us": rng.choice([0, 0, 1, 50, 300]), "ops": ops, "faults": faults, "end": round(tc + 4.0, 6), "t_canary": round(tc, 6),
             "stream": [round(t_stream0, 6), round(t_end_stream, 6)]}
 
 
 def execute(scenario, seed, overrides=None):
     out = runner.Outcome()
-    w = World(seed, FaultConfig(**scenario.get("faults", {})), overrides)
+    w = World(seed, FaultConfig(**scenario.get("faults", {})), overrides,
+              timer_slop=scenario.get("timer_slop_us", 0) / 1e6)
     stats = {"hostile_delivered": 0, "oversize_sent": 0, "random": 0, "mutated": 0, "hostile": 0, "deep_chain": 0,
              "utf8_labels": 0, "legacy_port_hostile": 0}
     try:
